@@ -539,6 +539,49 @@ async fn one_scenario(rep: &mut Report, rng: &mut Rng, sc: &Scenario, root: &Pat
 		}
 	};
 
+	// --- several paths in one event: every path is judged by its own type tag ------------------
+	// A directory-typed path followed by an untyped one: when each passes (is rejected) as an event of its own, the
+	// two-path event passes (is rejected) as well.
+	{
+		let filterer = IgnoreFilterer(filter.clone());
+		let single = |abs: &Path, ft: Option<FileType>| {
+			let ev = Event { tags: vec![Tag::Path { path: abs.to_path_buf(), file_type: ft }], metadata: Default::default() };
+			filterer.check_event(&ev, Priority::Normal).unwrap_or(true)
+		};
+		let dirs: Vec<&Probe> = probes.iter().filter(|p| p.is_dir).take(6).collect();
+		let others: Vec<&Probe> = probes.iter().filter(|p| !p.is_dir).take(12).collect();
+		for d in &dirs {
+			let da = abs_of(&built.origin, &d.rel);
+			let sd = single(&da, Some(FileType::Dir));
+			for u in &others {
+				let ua = abs_of(&built.origin, &u.rel);
+				let su = single(&ua, None);
+				if sd != su {
+					continue;
+				}
+				let ev = Event {
+					tags: vec![Tag::Path { path: da.clone(), file_type: Some(FileType::Dir) }, Tag::Path { path: ua.clone(), file_type: None }],
+					metadata: Default::default(),
+				};
+				let both = filterer.check_event(&ev, Priority::Normal).unwrap_or(true);
+				rep.count("two_path_events_judged", 1);
+				if both != sd {
+					rep.violation(
+						"C03/event/verdict-depends-on-another-paths-type",
+						&format!(
+							"[{} (dir)] and [{} (untyped)] are each {} as events of their own, but the event naming both is {}",
+							d.rel,
+							u.rel,
+							if sd { "passed" } else { "rejected" },
+							if both { "passed" } else { "rejected" }
+						),
+						wit(json!({"dir_probe": d.rel, "untyped_probe": u.rel})),
+					);
+				}
+			}
+		}
+	}
+
 	// --- oracle comparison ----------------------------------------------------------------
 	let in_origin: Vec<&Probe> = probes.iter().filter(|p| !p.rel.starts_with("../")).collect();
 	let git = git_oracle(root, sc, &in_origin);
